@@ -285,16 +285,17 @@ def run(ctx):
                   msg=f"shell_handler for {label}: {sorted(set(problems))[:3]}", key=f"reply discipline {label}", node=hf, rel="jupyter_kernel.py", sample={"paths": npaths})
     ctx.rule("R19.5", "a subscriber connection that is closed is also taken out of the broadcast set (a later broadcast to a closed writer resets the shell channel)", floor=1)
     uid = "jupyter_kernel.py::Kernel.iopub_listen"
-    pol = FlowPolicy(program, events=["self.iopub_socket.add", "iopub_socket.close", "self.iopub_socket.discard", "self.iopub_socket.remove"], may_raise_all=True, cancel=True,
-                     locals_={"self", "iopub_socket"}, record_atoms=False)
+    pol = FlowPolicy(program, events=["iopub_socket.close"], may_raise_all=True, cancel=True, locals_={"self", "iopub_socket"}, record_atoms=False)
     pol.loop_unroll = 1
-    out = run_flow(program, uid, pol)
+    out = run_flow(program, uid, pol, heap={"self.iopub_socket": ListV((), "set")})
     n_closed, stale = 0, []
     for kind, c, desc in exits(out):
         evs = [e[1] for e in c.trace if e[0] == "call"]
-        if "self.iopub_socket.add" in evs and "iopub_socket.close" in evs and kind == "return":
+        sock = c.env.get("iopub_socket")
+        members = c.heap.get("self.iopub_socket")
+        if "iopub_socket.close" in evs and kind == "return" and sock is not None:
             n_closed += 1
-            if not any(x in evs[evs.index("self.iopub_socket.add"):] for x in ("self.iopub_socket.discard", "self.iopub_socket.remove")):
+            if not isinstance(members, ListV) or sock in members.items:
                 stale.append(desc)
     ctx.check(n_closed > 0 and not stale, "R19.5", uid, "closed subscriber removed from the broadcast set",
               msg=f"iopub_listen: on {len(stale)} path(s) the subscriber socket is closed but stays in self.iopub_socket: the next status broadcast writes to a closed connection, "
